@@ -23,7 +23,7 @@ CHILD = str(VERIF / 'harness' / 'c01_child.py')
 SPACES = {
     2: [dict(kvs=[[0, 0, 1, 3, 3], [0, 0, 0, 1, 2, 2, 2]], ps=[1, 2], A=[[2, 1], [0, 3]], t=[1, -2]),
         dict(kvs=[[0, 0, 0, 2, 3, 3, 3], [0, 0, 0, 1, 1, 2, 2, 2]], ps=[2, 2], A=[[1, -1], [2, 1]], t=[0, 1]),
-        dict(kvs=[[0, 0, 0, 1, 3, 3, 3], [0, 0, 2, 3, 3]], ps=[2, 1], A=[[0, 2], [-1, 1]], t=[-1, 0])],   # det < 0
+        dict(kvs=[[0, 0, 0, 1, 3, 3, 3], [0, 0, 2, 3, 3]], ps=[2, 1], A=[[0, 2], [1, 1]], t=[-1, 0])],    # det = -2: orientation-reversing
     3: [dict(kvs=[[0, 0, 1, 2, 2], [0, 0, 0, 2, 2, 2], [0, 0, 1, 1]], ps=[1, 2, 1], A=[[1, 0, 1], [0, 2, 0], [1, 0, -1]], t=[0, 1, 2])],
 }
 # Petrov-Galerkin pairs on a common mesh: trial functions u in space 0, test functions v in space 1 (rows)
